@@ -78,15 +78,27 @@ FixedLineMC(c, f, i) ==
       [] c.fam = "long"  -> (CASE i = 1 -> T1 [] i = 2 -> Long(c.n) [] OTHER -> T2)
       [] c.fam = "reg"   -> (CASE i = 1 -> BeginC(c.nreg) [] i = 4 -> BeginC(2) [] i \in {2, 5} -> T1 [] OTHER -> END)
 
+P_libast == <<108, 105, 98, 97, 115, 116>>        \* "libast"
+P_tsabil == <<116, 115, 97, 98, 105, 108>>        \* "tsabil"  (same length: the replaced name string may land at the same address)
+P_Eterm  == <<69, 116, 101, 114, 109>>            \* "Eterm"
+P_long   == <<109, 121, 45, 99, 111, 110, 102, 105, 103, 117, 114, 97, 116, 111, 114>>   \* "my-configurator"
+WithProg(c, p) == [c EXCEPT !.prog = p]
+\* the program name is a process-wide setting: behaviours of different configurations are replayed by the same harness
+\* processes in TLC's emission order, so the name changes between parses all the time
+ProgOfNull(nm) == CASE nm = "builtin" -> P_libast [] nm = "first" -> P_tsabil [] OTHER -> P_long
 Cfg(fam, n, regfam, nreg, nullmode, kinds, maxlen, alpha) ==
-    [fam |-> fam, n |-> n, regfam |-> regfam, nreg |-> nreg, names |-> <<>>, nullmode |-> nullmode,
+    [fam |-> fam, n |-> n, regfam |-> regfam, nreg |-> nreg, names |-> <<>>, nullmode |-> nullmode, prog |-> P_libast, magic |-> <<>>,
      kinds |-> kinds, maxlen |-> maxlen, alpha |-> alpha, content |-> <<>>]
 Fam(fam, n) == Cfg(fam, n, "AB", 0, "first", <<"ok">>, <<0>>, "none")
 RegModes == {<<"none", 0>>, <<"A", 0>>, <<"AB", 0>>, <<"many", 30>>}
 NullModes == {"builtin", "first", "last"}
 K5 == <<"ok", "ok", "ok", "badmagic", "empty">>
+\* the classifier-alphabet configurations run under another program name; file 4 exists and carries the magic line of the
+\* PREVIOUS program name (libast), file 5 is empty
+K5f == <<"ok", "ok", "ok", "ok", "empty">>
+Rich(nm, maxlen) == [WithProg(Cfg("enum", 0, "AB", 0, nm, K5f, maxlen, "rich"), P_Eterm) EXCEPT !.magic = <<P_Eterm, P_Eterm, P_Eterm, P_libast, P_Eterm>>]
 
-EnumAll(m1, m2) == {Cfg("enum", 0, r[1], r[2], nm, <<"ok", "ok">>, <<m1, m2>>, "base") : r \in RegModes, nm \in NullModes}
+EnumAll(m1, m2) == {WithProg(Cfg("enum", 0, r[1], r[2], nm, <<"ok", "ok">>, <<m1, m2>>, "base"), ProgOfNull(nm)) : r \in RegModes, nm \in NullModes}
 NestNs  == {9, 10, 11, 19, 20, 21, 39, 40, 41, 79, 80, 81, 159, 160, 161, 254, 255}
 ChainNs == {8, 9, 10, 11, 19, 20, 39, 40, 79, 80, 159, 160, 161, 253, 254}
 RegNs   == {19, 20, 21, 39, 40, 79, 80, 159, 160, 161, 254, 255}
@@ -99,17 +111,17 @@ Families(nest, chain, regs) ==
 ConfigsQuickEnum ==
     {Cfg("enum", 0, "A", 0, "first", <<"ok", "ok">>, <<5, 2>>, "base")}
     \cup EnumAll(3, 2)
-    \cup {Cfg("enum", 0, "AB", 0, "first", K5, <<2, 1, 0, 0, 0>>, "rich")}
+    \cup {Rich("first", <<2, 1, 0, 0, 0>>)}
 ConfigsQuickFam == Families(NestNs, ChainNs, RegNs)
 ConfigsThoroughEnum ==
     {Cfg("enum", 0, "A", 0, "first", <<"ok", "ok">>, <<6, 2>>, "base")}
     \cup {Cfg("enum", 0, "AB", 0, "first", <<"ok", "ok", "ok">>, <<4, 2, 1>>, "deep")}
     \cup EnumAll(4, 2)
-    \cup {Cfg("enum", 0, "AB", 0, nm, K5, <<3, 1, 0, 0, 0>>, "rich") : nm \in {"first", "builtin"}}
+    \cup {Rich(nm, <<3, 1, 0, 0, 0>>) : nm \in {"first", "builtin"}}
 ConfigsThoroughFam == Families(1 .. 255, 1 .. 254, 3 .. 255)
 \* the small set of behaviours that the C11 driver re-runs under its own instruments (spawn refusal, heap balance)
 ConfigsC11 == {Cfg("enum", 0, "A", 0, "first", <<"ok", "ok">>, <<3, 2>>, "base"),
-               Cfg("enum", 0, "AB", 0, "last", K5, <<2, 1, 0, 0, 0>>, "rich")}
+               Rich("last", <<2, 1, 0, 0, 0>>)}
                \cup {Fam("nest", n) : n \in {21, 161, 255}} \cup {Fam("chain", n) : n \in {21, 161, 254}}
 \* the pinned mechanism (CapMod = 256): TLC must find the capacity wrap by itself
 ConfigsAsBuilt == {Fam("nest", 161), Fam("chain", 161), Cfg("reg", 0, "many", 161, "first", <<"ok">>, <<0>>, "none")}
